@@ -67,8 +67,8 @@ type tierCfg struct {
 var tiers = map[string]tierCfg{
 	"quick": {name: "quick", corrupt: 300, churn: 1200, large: 18, growReplace: 0, growMax: 600, serialSeconds: 20, serialProcs: 16, selfRuns: 200, pairsM: 64, firstPer: 3, preemptPairs: 96, preemptCap: 300,
 		burstSeconds: 12, burstMin: 1200, burstProcs: 6, hardCap: 15 * time.Minute},
-	"thorough": {name: "thorough", corrupt: 1500, churn: 6000, large: 32, growReplace: 1, growMax: 3000, serialSeconds: 720, serialProcs: 16, selfRuns: 5000, pairsM: 420, firstPer: 12, preemptPairs: 3000, preemptCap: 2000,
-		burstSeconds: 240, burstMin: 30000, burstProcs: 6, hardCap: 90 * time.Minute},
+	"thorough": {name: "thorough", corrupt: 1500, churn: 6000, large: 32, growReplace: 1, growMax: 3000, serialSeconds: 720, serialProcs: 16, selfRuns: 5000, pairsM: 420, firstPer: 12, preemptPairs: 1000, preemptCap: 600,
+		burstSeconds: 240, burstMin: 30000, burstProcs: 6, hardCap: 150 * time.Minute},
 }
 
 var (
@@ -855,7 +855,7 @@ func doCheck(cfg tierCfg) int {
 		out2 := filepath.Join(scratch, fmt.Sprintf("preempt-%d.json", i))
 		side2 := filepath.Join(scratch, fmt.Sprintf("preempt-%d.side", i))
 		sideFiles = append(sideFiles, side2)
-		ps = append(ps, &proc{name: fmt.Sprintf("preempt-%d", i), bin: b.serialBin, outFile: out2, timeout: 30 * time.Minute,
+		ps = append(ps, &proc{name: fmt.Sprintf("preempt-%d", i), bin: b.serialBin, outFile: out2, timeout: 75 * time.Minute,
 			args: append([]string{"-mode", "preempt", "-w", fmt.Sprint(i), "-of", fmt.Sprint(ncpu), "-m", fmt.Sprint(cfg.preemptPairs), "-cap", fmt.Sprint(cfg.preemptCap), "-refs", table, "-out", out2, "-side", side2}, common...),
 			env:  []string{"GOMAXPROCS=1", "GOMEMLIMIT=3GiB"}})
 	}
